@@ -251,7 +251,13 @@ impl V {
                     return Err("type test not statically decided".into());
                 }
                 let vs: Vec<Ty> = ty.variants().into_iter().filter(|v| v.sub(t)).collect();
-                let bt = if vs.is_empty() { t.clone() } else { Ty::union(vs) };
+                if vs.is_empty() {
+                    // open finding (valid program rejected, in dead code): the variable gets the EMPTY type, a
+                    // later match on it registers no bindings at all, and a read of such a binder in the same
+                    // chain is VariableUndefined: `{ =(Ok)p, p =d d }`
+                    return Err("statically impossible type-ascribed binder (open finding: a match on a value of empty type registers no bindings)".into());
+                }
+                let bt = Ty::union(vs);
                 bind(x, &bt, seen)
             }
             Pat::Tup(n, pfs) => {
